@@ -4,6 +4,7 @@
 #include <tulz/threading/ThreadPool.h>
 
 #include <memory>
+#include <system_error>
 
 #include "common.h"
 
@@ -30,6 +31,8 @@ struct TaskState {
     int runner = -1;
     int epoch = 0;          // number of stop() calls issued before submission
     bool must_run = false;
+    bool exempt = false;    // start() threw (injected pthread_create failure): who owns the task then is unspecified, so it is
+                            // neither required to run nor to be destroyed; it still must not run twice or be freed while running
 };
 
 struct Registry {  // harness-side monitor; every access inside sim::Untracked
@@ -127,11 +130,21 @@ int submit(Ctx& c, int kind, int yields) {
         t.epoch = c.stops_issued;
     }
     sim::ev(E_SUBMIT, id, kind);
-    if (kind == 0) {
-        c.pool->start(new Task(id, yields));
-    } else {
-        Functor f(id, yields);
-        c.pool->start(f, c.counters[id]);
+    try {
+        if (kind == 0) {
+            c.pool->start(new Task(id, yields));
+        } else {
+            Functor f(id, yields);
+            c.pool->start(f, c.counters[id]);
+        }
+    } catch (const std::system_error&) {
+        // injected fault: thread creation failed inside start().  The pool must stay usable (later start()/stop() must not
+        // hang or touch freed memory); nothing is assumed about this task, nor that unstarted earlier tasks get a wake-up.
+        sim::Untracked u;
+        R->tasks[id].exempt = true;
+        c.cleared_upto = (int)R->tasks.size();
+        g_extra["start_threw_system_error"]++;
+        return -1 - id;
     }
     return id;
 }
@@ -140,7 +153,7 @@ void wait_tasks(Ctx& c, int from, int to, int tag) {
     sim::set_tag(tag);
     sim::wait_until([&, from, to] {
         for (int i = from; i < to; i++)
-            if (R->tasks[i].end < 0) return false;
+            if (R->tasks[i].end < 0 && !R->tasks[i].exempt) return false;
         return true;
     });
     sim::set_tag(0);
@@ -155,7 +168,7 @@ void after_stop(Ctx& c, int64_t stop_call_seq, const char* where) {
     if (g_prop == "C07") return;  // C07 judges destruction at the very end (task-leaked), whatever stop() chooses to do when
     for (size_t i = 0; i < R->tasks.size(); i++) {
         auto& t = R->tasks[i];
-        if (t.submit >= stop_call_seq) continue;
+        if (t.submit >= stop_call_seq || t.exempt) continue;
         bool destroyed = t.kind == 0 ? t.dtors == 1 : t.live == 0;
         if (!destroyed)
             sim::violation("task-not-destroyed-by-stop", std::string(where) + ": task " + std::to_string(i) + " (submitted before stop) is still alive after stop() returned; ran=" + std::to_string(t.runs));
@@ -167,7 +180,7 @@ void body(const Json& prog) {
     c.maxThreads = (int)prog.get("max", 2);
     c.expiry = (int)prog.get("expiry", -1);
     const Json& ops = prog.at("ops");
-    c.counters.assign(ops.size() + 4, 0);
+    c.counters.assign(ops.size() + 8, 0);
     c.pool = std::make_unique<ThreadPool>();
     c.pool->setMaxThreadCount(c.maxThreads);
     c.pool->setExpiryTimeout(c.expiry);
@@ -216,7 +229,7 @@ void body(const Json& prog) {
     // every task submitted after the last clear()/stop() must run exactly once (non-expiring workers only: C07's scope)
     int ntasks; { sim::Untracked u; ntasks = (int)R->tasks.size(); }
     if (c.expiry < 0) {
-        { sim::Untracked u; for (int i = c.cleared_upto; i < ntasks; i++) R->tasks[i].must_run = true; }
+        { sim::Untracked u; for (int i = c.cleared_upto; i < ntasks; i++) R->tasks[i].must_run = !R->tasks[i].exempt; }
         wait_tasks(c, c.cleared_upto, ntasks, TAG_WAIT);
     }
     {
@@ -232,10 +245,11 @@ void body(const Json& prog) {
     // restart probe: a later start() works again and a second stop() returns
     {
         sim::ev(E_OP_CALL, opi + 1, OP_PROBE_START);
-        int id = submit(c, 0, 1);
+        int id = -1;
+        for (int attempt = 0; attempt < 6 && id < 0; attempt++) id = submit(c, 0, 1);   // (an injected creation failure may hit the probe too)
         sim::ev(E_OP_RET, opi + 1, OP_PROBE_START);
         observe(c, "after restart");
-        wait_tasks(c, id, id + 1, TAG_PROBE_WAIT);
+        if (id >= 0) wait_tasks(c, id, id + 1, TAG_PROBE_WAIT);
         int64_t s = sim::seqno();
         sim::ev(E_OP_CALL, opi + 2, OP_PROBE_STOP);
         { sim::Untracked u; c.stops_issued++; }
@@ -263,7 +277,7 @@ void analyse(const Json& prog, const Registry& reg) {
         auto& t = reg.tasks[i];
         std::string id = "task " + std::to_string(i);
         if (t.runs > 1) sim::violation("task-ran-twice", id + " executed more than once");
-        bool destroyed_once = t.kind == 0 ? t.dtors == 1 : t.live == 0;
+        bool destroyed_once = t.exempt || (t.kind == 0 ? t.dtors == 1 : t.live == 0);
         if (!destroyed_once) sim::violation("task-leaked", id + " not destroyed exactly once by the end (dtors=" + std::to_string(t.dtors) + " live copies=" + std::to_string(t.live) + ")");
         if (t.runs == 1 && t.dtor >= 0 && t.dtor < t.end) sim::violation("task-destroyed-while-running", id + " destroyed before its execution ended");
         if (t.must_run && t.runs != 1) sim::violation("task-lost", id + " was never executed although the pool was neither stopped nor cleared after its submission");
@@ -370,6 +384,7 @@ void generate(sim::Rng& g, const std::string& prop, const std::string& tier, Jso
         cfg.clock_jump_rate = 0.02;
         cfg.clock_jump_ms = expiry + 1 + (int)g.below(50);
     }
+    if (prop != "C15" && g.below(6) == 0) cfg.create_fail_rate = 0.25;   // thread creation fails now and then inside start()
     cfg.step_cap = 30000;
 }
 
